@@ -27,14 +27,16 @@ pub struct Gp {
     pub big: bool,
     /// Nesting depth (reduces sizes of nested collections).
     pub depth: u32,
+    /// Very large top-level values (64 KiB strings, 70 000-element slices): megabyte batches.
+    pub mega: bool,
 }
 
 impl Gp {
     pub fn normal() -> Self {
-        Gp { small: false, big: false, depth: 0 }
+        Gp { small: false, big: false, depth: 0, mega: false }
     }
     pub fn small() -> Self {
-        Gp { small: true, big: false, depth: 0 }
+        Gp { small: true, big: false, depth: 0, mega: false }
     }
     pub fn deeper(&self) -> Self {
         Gp { depth: self.depth + 1, ..self.clone() }
@@ -406,6 +408,11 @@ pub trait Spec: Sized + 'static {
     /// After `merge_regions` from regions that held `trained`: is `v` inside the acceptance
     /// contract (a sufficient condition)? Non-coded regions accept everything.
     fn accepts(_trained: &[&Self::V], _v: &Self::V) -> bool {
+        true
+    }
+    /// Whether the model can follow this push (false: offsets would leave `usize`, which the crate
+    /// does not claim to handle; such pushes are skipped).
+    fn admissible(_m: &Self::M, _v: &Self::V) -> bool {
         true
     }
     /// Whether pushing `v` right after `prev` must store nothing at all (whole push collapses).
